@@ -939,7 +939,7 @@ pub fn run_c13(args: &Args, model: &mut Model) -> Report {
         c13_check(&c, model, &mut rep, "corpus");
         registry_clear();
     }
-    let n = if args.thorough { 1500 } else { 220 };
+    let n = if args.thorough { 5000 } else { 220 };
     for i in 0..n {
         let mut p = Prng::for_case(args.seed, i);
         let c = c13_gen(&mut p, args.thorough);
@@ -2117,8 +2117,15 @@ fn c15_concurrent_ids(threads: usize, per_thread: usize, model: &mut Model, rep:
     let r2 = rec.clone();
     wait_until(Duration::from_secs(60), || r2.lock().unwrap().len() >= total);
     cancel_all(&executor);
+    // also through the sessions' own senders: a session whose table entry was overwritten by a
+    // duplicate id is not reachable through the executor
+    for s in sessions.iter() {
+        let _ = s.sender.send(Box::new(Event::new_simple(EVENT_CANCEL_SESSION)));
+    }
+    let t_join = Instant::now();
     for s in sessions.iter_mut() {
-        let _ = join_session(s, Duration::from_secs(10));
+        let left = Duration::from_secs(20).saturating_sub(t_join.elapsed());
+        let _ = join_session(s, left.max(Duration::from_millis(50)));
     }
     let recs = rec.lock().unwrap().clone();
     let mut sids: Vec<u32> = sessions.iter().map(|s| s.session_id).collect();
@@ -2253,6 +2260,7 @@ pub fn run_c15(args: &Args, model: &mut Model) -> Report {
         }
         return rep;
     }
+    c15_concurrent_ids(8, 25, model, &mut rep, &mut ids_seen);
     for (i, w) in c15_corpus().iter().enumerate() {
         c15_run_world(w, model, &mut rep, &format!("corpus {}", i), &mut ids_seen);
     }
